@@ -88,6 +88,16 @@ pub fn all_fronts<F: Family>(b: &[u8], origin: &str, ctx: &mut Ctx) -> CaseResul
         any = true;
         invariants::<F>(&p, b, "async", ctx)?;
     }
+    // the async decoder again, over a transport that hands the bytes over in small pieces (validation that is done
+    // piece by piece must not let through what the whole would not)
+    if b.len() <= 4_096 {
+        for k in [1usize, 2, 3] {
+            if let (Ok(p), _) = fam::dec_async_chunked::<F>(b, k) {
+                any = true;
+                invariants::<F>(&p, b, "async (chunked delivery)", ctx)?;
+            }
+        }
+    }
     if let Ok(ok) = fam::dec_poll::<F>(b).result {
         any = true;
         invariants::<F>(&ok.pkt, b, "poll", ctx)?;
